@@ -226,21 +226,17 @@ class FuncRun(ExprMixin, InstrMixin, CallMixin):
         """-> (name prefix, keys, storage type name)"""
         if ptr.kind == 'box' and ptr.c is not None:
             ptr = PtrV('box', ptr.a, ptr.b, None, ptr.path)
+        # one name per memory location: a nested path (&x.a.b, &s[i].f) names the same component as the leaf b of a
+        # whole-value access to x.a (resp. the leaf f of s[i]) -- `lead` is the part of the path that becomes leaf path
         if ptr.kind == 'field':
             fname = ptr.path[0]
             ft = dict(self.ty.struct_fields(ptr.b))[fname]
             rest = ptr.path[1:]
-            return 'F|%s|%s' % (ptr.b, '.'.join(ptr.path)), [ptr.a], self.type_at(ft, rest)
+            return 'F|%s|%s' % (ptr.b, fname), [ptr.a], self.type_at(ft, rest), tuple(rest)
         if ptr.kind == 'elem':
-            pre = 'E|%s' % ptr.c
-            if ptr.path:
-                pre += '|' + '.'.join(ptr.path)
-            return pre, [ptr.a, ptr.b], self.type_at(ptr.c, ptr.path)
+            return 'E|%s' % ptr.c, [ptr.a, ptr.b], self.type_at(ptr.c, ptr.path), tuple(ptr.path)
         if ptr.kind == 'box':
-            pre = 'B|%s' % ptr.b
-            if ptr.path:
-                pre += '|' + '.'.join(ptr.path)
-            return pre, [ptr.a], self.type_at(ptr.b, ptr.path)
+            return 'B|%s' % ptr.b, [ptr.a], self.type_at(ptr.b, ptr.path), tuple(ptr.path)
         raise Unsupported('heap_loc of %r' % (ptr,))
 
     def leaf_name(self, pre, p):
@@ -263,10 +259,10 @@ class FuncRun(ExprMixin, InstrMixin, CallMixin):
             return v
         if not isinstance(ptr, PtrV):
             raise Unsupported('load through %r' % (ptr,))
-        pre, keys, tn = self.heap_loc(ptr)
+        pre, keys, tn, lead = self.heap_loc(ptr)
         vals = []
         for p, s, lt in self.ty.leaves(tn):
-            name = self.leaf_name(pre, p)
+            name = self.leaf_name(pre, lead + tuple(p))
             if len(keys) == 1:
                 arr = self.heap_get(state, name, T.ARR(T.INT, s))
                 vals.append(T.select(arr, keys[0]))
@@ -319,7 +315,7 @@ class FuncRun(ExprMixin, InstrMixin, CallMixin):
             return
         if not isinstance(ptr, PtrV):
             raise Unsupported('store through %r' % (ptr,))
-        pre, keys, tn = self.heap_loc(ptr)
+        pre, keys, tn, lead = self.heap_loc(ptr)
         if isinstance(val, ClosureV):
             idt = T.fresh('fnval')
             self.fnvals[idt] = val
@@ -331,7 +327,7 @@ class FuncRun(ExprMixin, InstrMixin, CallMixin):
             val = idt
         flat = self.ty.flatten(val, tn)
         for (p, s, lt), v in zip(self.ty.leaves(tn), flat):
-            name = self.leaf_name(pre, p)
+            name = self.leaf_name(pre, lead + tuple(p))
             self.record_write(('heap', name), keys[0])
             if len(keys) == 1:
                 arr = self.heap_get(state, name, T.ARR(T.INT, s))
